@@ -66,7 +66,7 @@ def run(ctx):
         return "".join(r.choice(IDC) for _ in range(r.choice([0, 1, 1, 3, 8])))
 
     def g_id(r):
-        return "".join(r.choice(IDC) for _ in range(r.choice([1, 2, 5])))
+        return "".join(r.choice(IDC) for _ in range(r.choice([1, 2, 5, 9, 10, 11, 14])))
 
     GEN = {
         "str": g_str, "id": g_id, "int": lambda r: r.choice([0, 1, -3, 7, 10 ** 6, r.randint(-50, 50)]), "float": lambda r: r.choice([0.0, 1.5, -2.25, 1e-3, float(r.randint(-9, 9))]),
@@ -93,7 +93,7 @@ def run(ctx):
         row = []
         for fname, kind in spec:
             if kind == "seqq":
-                s = "".join(r.choice("ACGT") for _ in range(r.choice([1, 3, 6])))
+                s = "".join(r.choice("ACGT") for _ in range(r.choice([1, 3, 6]) if not getattr(r, "all_empty_reads", False) else 0))
                 row.append(s)
             elif kind == "qual":
                 row.append([r.randint(0, 40) for _ in row[-1]])
@@ -102,6 +102,8 @@ def run(ctx):
             else:
                 row.append(GEN[kind](r))
         return tuple(row)
+
+    qual_as_text = [False]
 
     def build(cls, spec, rows):
         cols = []
@@ -113,6 +115,8 @@ def run(ctx):
                 cols.append(np.array(vals, dtype=float))
             elif kind == "bool":
                 cols.append(np.array(vals, dtype=bool))
+            elif kind == "qual" and qual_as_text[0]:
+                cols.append(["".join(chr(33 + q) for q in v) for v in vals])       # qualities given as text (what a FASTQ line holds)
             elif kind in ("ints", "qual"):
                 from npstructures import RaggedArray
                 cols.append(RaggedArray([np.array(v, dtype=int) for v in vals]) if vals else RaggedArray(np.zeros(0, dtype=int), np.zeros(0, dtype=int)))
@@ -180,6 +184,8 @@ def run(ctx):
             declared = [f.type for f in dataclasses.fields(cls)]
             ctx.check("dynamic-declared-types", declared == [TYPES[k] for _, k in spec], "DynamicDC/declared-field-types-differ", "make_dataclass(%r) reports field types %r" % (spec, declared), {"spec": spec, "declared": [str(d) for d in declared]}, None)
         n = r.choice([0, 1, 1, 2, 3, 6])
+        r.all_empty_reads = tname == "SequenceEntryWithQuality" and r.random() < 0.15       # reads trimmed to nothing
+        qual_as_text[0] = r.random() < 0.4
         rows = [gen_row(r, spec) for _ in range(n)]
         t = build(cls, spec, rows)
         model = model_rows(spec, rows)
